@@ -29,10 +29,6 @@ def kernels (ok nk : List Int) (cols : List SCol) : Except Err (List Int × List
       | .error e => .error e
       | .ok out => .ok (om, nm, tk, out)
 
-def scolOf : Col → SCol
-  | .num o n => .num o n
-  | .str o n => .str (encode o).1 (encode o).2 (encode n).1 (encode n).2
-
 def handle : Driver.Handler := fun op j =>
   match op with
   | "journal_table" => some do
@@ -51,7 +47,7 @@ def handle : Driver.Handler := fun op j =>
     pure <| Driver.outE (fun (o : List Int × List Int × List Bool × List OutCol) =>
         Json.mkObj [("om", Driver.ints o.1), ("nm", Driver.ints o.2.1), ("tk", bools o.2.2.1),
                     ("cols", Json.arr (o.2.2.2.map outColJson).toArray)])
-      (kernels ok nk (cols.map scolOf))
+      (kernels ok nk (cols.map Col.enc))
   | _ => none
 
 end Driver.C17
